@@ -94,7 +94,9 @@ install(globals(), 'C12', view, oracle,
         level_text='Lean 4 theorems over the scheduler model: the log starts with the initial step phase, one '
                    'configuration record and the row for the initial time; with emit_step 1 every applied batch is '
                    'followed by its step phase and then exactly one row; row times are strictly increasing; a row is '
-                   'the flagged part of the state at that moment; with larger emit_step rows are emitted at most '
+                   'the flagged part of the state at that moment — globally: every row of every reachable history is '
+                   'the flagged replay of exactly the applications before it, all at times <= its key and every '
+                   'later application strictly later; with larger emit_step rows are emitted at most '
                    'once per batch. Tied to engine.py by the emit/batch sequence correspondence; row fidelity is '
                    'checked directly on the implementation.',
         level_note='Trusted: Lean kernel + standard axioms; scheduler model ~ Engine.run_for via trace '
@@ -103,7 +105,8 @@ install(globals(), 'C12', view, oracle,
                    'changing hierarchy shapes is covered by C09/C10 checks of the hierarchy itself.',
         technique='Lean 4 invariant proof over the scheduler log + emit-sequence correspondence',
         extra_corpus=_extra(),
-        required=['emit_times_strict', 'row_is_flagged_state', 'one_row_per_batch', 'initial_prefix', 'at_most_one_row_per_pass', 'row_contents'])
+        required=['emit_times_strict', 'row_is_flagged_state', 'one_row_per_batch', 'initial_prefix', 'at_most_one_row_per_pass', 'row_contents',
+                  'every_row_is_the_state_at_its_time'])
 
 
 # emission through units and custom serializers
